@@ -10,7 +10,7 @@ class SpecC10(e1_driver.Spec):
     profile = dict(p_pool_l=0.4, p_pool_s=0.15,
                    fault_kinds=['stop_resume', 'kill', 'slice', 'slice',
                                 'timeout', 'timeout', 'timeout', 'run_to',
-                                'run_to', 'run_to'])
+                                'run_to', 'run_to', 'toggle', 'toggle'])
     runs = dict(quick=96, thorough=1800)
     budget = dict(quick=130, thorough=1500)
     rule = ('cases as for C01 with histories rich in run(n_like_max=M) for '
